@@ -13,16 +13,16 @@ namespace ReplyNewFn
 open RustSem Extracted.ReplyOnFns Extracted.ReplyNewFns
 open RustExtern (ParsedAttrs)
 
-variable {MV MF MA Attr P D Id : Type}
+variable {MV MF MA Attr P D Id FT : Type} [DecidableEq FT]
   (variantFields : MV → List MF) (variantMsgAttr : MV → MA) (attrReplyOn : MA → ReplyOn)
-  (fieldAttrs : MF → List Attr) (parsedAttrs : List Attr → ParsedAttrs P D) (variantFnName : MV → Id)
+  (fieldAttrs : MF → List Attr) (parsedAttrs : List Attr → ParsedAttrs P D) (variantFnName : MV → Id) (fieldTy : MF → FT)
 
 def missingPayload : String :=
   "Missing payload parameter. | Expected at least one payload parameter at the end of parameter list."
 
 /-- both callees return normally (they are total: see `Thm/ReplyParamFn.lean` for what they return) -/
 theorem as_data_field_total (v : MV) :
-    ∃ r, Extracted.ReplyNewFns.MsgVariant.as_data_field variantFields variantMsgAttr attrReplyOn fieldAttrs parsedAttrs variantFnName v = .ok r := by
+    ∃ r, Extracted.ReplyNewFns.MsgVariant.as_data_field variantFields variantMsgAttr attrReplyOn fieldAttrs parsedAttrs variantFnName fieldTy v = .ok r := by
   unfold Extracted.ReplyNewFns.MsgVariant.as_data_field
   cases enumFind (fun f => ((parsedAttrs (fieldAttrs f)).data).isSome) (variantFields v) with
   | none => exact ⟨_, rfl⟩
@@ -31,7 +31,7 @@ theorem as_data_field_total (v : MV) :
     cases hs : attrReplyOn (variantMsgAttr v) <;> cases i <;> simp <;> exact ⟨_, rfl⟩
 
 theorem redundant_total (payload : List MF) :
-    ∃ d, assert_no_redundant_params variantFields variantMsgAttr attrReplyOn fieldAttrs parsedAttrs variantFnName payload = .ok ((), d) := by
+    ∃ d, assert_no_redundant_params variantFields variantMsgAttr attrReplyOn fieldAttrs parsedAttrs variantFnName fieldTy payload = .ok ((), d) := by
   unfold assert_no_redundant_params
   by_cases hl : payload.length = 1
   · exact ⟨[], by simp [hl]⟩
@@ -44,10 +44,10 @@ theorem redundant_total (payload : List MF) :
 
 /-- **`ReplyData::new`** in terms of what its two callees return -/
 theorem new_spec (rid : Id) (v : MV) (hid : Id) (data : Option MF) (d1 : List String) (d3 : List MF → List String)
-    (h1 : Extracted.ReplyNewFns.MsgVariant.as_data_field variantFields variantMsgAttr attrReplyOn fieldAttrs parsedAttrs variantFnName v = .ok (data, d1))
-    (h3 : ∀ pl, assert_no_redundant_params variantFields variantMsgAttr attrReplyOn fieldAttrs parsedAttrs variantFnName pl = .ok ((), d3 pl)) :
+    (h1 : Extracted.ReplyNewFns.MsgVariant.as_data_field variantFields variantMsgAttr attrReplyOn fieldAttrs parsedAttrs variantFnName fieldTy v = .ok (data, d1))
+    (h3 : ∀ pl, assert_no_redundant_params variantFields variantMsgAttr attrReplyOn fieldAttrs parsedAttrs variantFnName fieldTy pl = .ok ((), d3 pl)) :
     let payload := if data.isSome || attrReplyOn (variantMsgAttr v) != ReplyOn.Success then (variantFields v).drop 1 else variantFields v
-    ReplyData.new variantFields variantMsgAttr attrReplyOn fieldAttrs parsedAttrs variantFnName rid v hid
+    ReplyData.new variantFields variantMsgAttr attrReplyOn fieldAttrs parsedAttrs variantFnName fieldTy rid v hid
       = .ok ({ reply_id := rid, handler_id := hid, handlers := [(variantFnName v, attrReplyOn (variantMsgAttr v))], data := data, payload := payload },
              d1 ++ (if payload.isEmpty then [missingPayload] else []) ++ d3 payload) := by
   intro payload
@@ -66,11 +66,37 @@ theorem new_spec (rid : Id) (v : MV) (hid : Id) (data : Option MF) (d1 : List St
 
 /-- **never panics** -/
 theorem new_total (rid : Id) (v : MV) (hid : Id) :
-    ∃ r, ReplyData.new variantFields variantMsgAttr attrReplyOn fieldAttrs parsedAttrs variantFnName rid v hid = .ok r := by
-  obtain ⟨⟨data, d1⟩, h1⟩ := as_data_field_total variantFields variantMsgAttr attrReplyOn fieldAttrs parsedAttrs variantFnName v
-  have h3 : ∀ pl, ∃ d, assert_no_redundant_params variantFields variantMsgAttr attrReplyOn fieldAttrs parsedAttrs variantFnName pl = .ok ((), d) :=
-    redundant_total variantFields variantMsgAttr attrReplyOn fieldAttrs parsedAttrs variantFnName
-  exact ⟨_, new_spec variantFields variantMsgAttr attrReplyOn fieldAttrs parsedAttrs variantFnName rid v hid data d1
+    ∃ r, ReplyData.new variantFields variantMsgAttr attrReplyOn fieldAttrs parsedAttrs variantFnName fieldTy rid v hid = .ok r := by
+  obtain ⟨⟨data, d1⟩, h1⟩ := as_data_field_total variantFields variantMsgAttr attrReplyOn fieldAttrs parsedAttrs variantFnName fieldTy v
+  have h3 : ∀ pl, ∃ d, assert_no_redundant_params variantFields variantMsgAttr attrReplyOn fieldAttrs parsedAttrs variantFnName fieldTy pl = .ok ((), d) :=
+    redundant_total variantFields variantMsgAttr attrReplyOn fieldAttrs parsedAttrs variantFnName fieldTy
+  exact ⟨_, new_spec variantFields variantMsgAttr attrReplyOn fieldAttrs parsedAttrs variantFnName fieldTy rid v hid data d1
     (fun pl => Classical.choose (h3 pl)) h1 (fun pl => Classical.choose_spec (h3 pl))⟩
+
+def mismatchedCount : String := "Mismatched quantity of method parameters."
+def mismatchedParam : String := "Mismatched parameter in reply handlers."
+
+/-- **`ReplyData::merge`**: a second method joins the entry opened by the first. The entry keeps its own payload parameters; the data
+parameter is taken from whichever method declares one (the D4 repair); the new method is listed under its outcome after those already
+there; the new method's own diagnostics come first, then a differing number of payload parameters, then every pair of payload parameters
+of different type, in order. (The `#[sv::payload(raw)]` marker is not compared: D25.) -/
+theorem merge_spec (e : ReplyData Id MF) (h : MV) (first : Id × ReplyOn) (rest : List (Id × ReplyOn)) (he : e.handlers = first :: rest)
+    (n : ReplyData Id MF) (dn : List String)
+    (hn : ReplyData.new variantFields variantMsgAttr attrReplyOn fieldAttrs parsedAttrs variantFnName fieldTy e.reply_id h e.handler_id = .ok (n, dn)) :
+    ReplyData.merge variantFields variantMsgAttr attrReplyOn fieldAttrs parsedAttrs variantFnName fieldTy e h
+      = .ok ({ e with data := if e.data.isNone then n.data else e.data,
+                      handlers := e.handlers ++ [(variantFnName h, attrReplyOn (variantMsgAttr h))] },
+             dn ++ (if e.payload.length != n.payload.length then [mismatchedCount] else [])
+                ++ (List.zip e.payload n.payload).filterMap (fun (a, b) => if fieldTy a != fieldTy b then some mismatchedParam else none)) := by
+  unfold ReplyData.merge
+  simp only [he, List.head?, hn, bind_ok, List.nil_append]
+  by_cases hl : (e.payload.length != n.payload.length) = true <;> by_cases hd : e.data.isNone = true <;>
+    simp [hl, hd, he, mismatchedCount, mismatchedParam]
+
+/-- an entry without methods is left alone (the early `return`) -/
+theorem merge_empty (e : ReplyData Id MF) (h : MV) (he : e.handlers = []) :
+    ReplyData.merge variantFields variantMsgAttr attrReplyOn fieldAttrs parsedAttrs variantFnName fieldTy e h = .ok (e, []) := by
+  unfold ReplyData.merge
+  simp [he]
 
 end ReplyNewFn
